@@ -127,4 +127,11 @@ var props = map[string]*propCfg{
 		Quick:       []legCfg{mc("pairs", "MC_C15", "C15_quick.cfg", 10*time.Minute)},
 		Thorough:    []legCfg{mc("pairs", "MC_C15", "C15_thorough.cfg", 30*time.Minute)},
 	},
+	"C18": {
+		ID: "C18", Level: "model_checking", Exhaustive: true,
+		Rule:        "TLC enumerates call expressions over a value domain of 16 scalars (NULL, booleans, integers, a fraction, strings incl. empty, numeric-looking and non-ASCII) and 7 arrays (empty, flat, nested two and three levels, with NULLs): every unary function x every value; ELEMENTAT x arrays x indices -1..4 and non-numeric indices; ARRAY / CONCAT x all argument tuples of length 0-2 (thorough 0-3); IF x {true,false,NULL} x value pairs; CHANGETYPE x scalars x 6 type names incl. upper-case and unknown, plus string->double/integer round trips; DATERANGE; CONSTANT x known/unknown keys x configured/not; ENCODE x 5 base names; DECODE(ENCODE(v,b),b') x same / unknown base; DECODE of garbage; HASH x 6 algorithm names; every fixed-arity function x 0-3 arguments. Each case is executed FROM dual, FROM a one-row table and (scalar arguments) with literal arguments; values, errors, opaque-text shape (hex length) and purity (same specification value -> same text, across cases) are compared. Every case counts as non-trivial; distinct = distinct (expression, arguments, constants).",
+		Assumptions: append([]string{"ENCODE / HASH are uninterpreted in the specification: bit patterns of base64 / base32 / hex / SHA are not modelled, only round trip, purity and length"}, baseAssumptions...),
+		Quick:       []legCfg{mc("builtins", "MC_C18", "C18_quick.cfg", 10*time.Minute)},
+		Thorough:    []legCfg{mc("builtins", "MC_C18", "C18_thorough.cfg", 30*time.Minute)},
+	},
 }
